@@ -290,6 +290,7 @@ func (r *Run) checkFullThenUpdate(P string) {
 	calls := r.callsIn(res, "OperationProcessor.applyOperations")
 	r.R.Floor(P+".full.then.update.floor", "instance floor", len(calls), 2, "applyOperations calls in Resolve")
 	var fullCall, updCall *ssa.Call
+	nSel := map[string]int{}
 	for _, c := range calls {
 		fnArg := c.Common().Args[3]
 		cf := closureFn(fnArg)
@@ -303,6 +304,7 @@ func (r *Run) checkFullThenUpdate(P string) {
 			}
 		}
 		opsT := rff.TB.Of(c.Common().Args[1])
+		nSel[which]++
 		switch which {
 		case "recovery":
 			fullCall = c
@@ -345,6 +347,10 @@ func (r *Run) checkFullThenUpdate(P string) {
 			r.R.Bad(P+".full.then.update.selector", "E13: commitment selector is RecoveryCommitment or UpdateCommitment of the state", core.FuncName(res), r.P.Pos(c.Pos()), "-", "unrecognised commitment selector "+rff.TB.Of(fnArg).String())
 		}
 	}
+	// the set of consumed commitments lives inside one applyOperations call: a chain applied in several calls
+	// (published first, then unpublished, say) forgets what the earlier call consumed
+	r.R.Check(nSel["recovery"] == 1 && nSel["update"] == 1, P+".full.then.update.once", "E13: each commitment chain (recovery, update) is applied by exactly one applyOperations call", core.FuncName(res), r.where(res),
+		"a chain split over several calls starts each call with an empty consumed-commitment set, so a later operation can return to a commitment the earlier call consumed", "one call per chain", fmt.Sprintf("recovery chain: %d call(s), update chain: %d call(s)", nSel["recovery"], nSel["update"]))
 	if fullCall == nil || updCall == nil {
 		r.R.Bad(P+".full.then.update.phases", "E8: both phases present", core.FuncName(res), r.where(res), "-", "Resolve does not apply both a recovery-chain and an update-chain phase")
 	}
